@@ -37,9 +37,10 @@ VARIABLES
     tok,      \* page token string -> offset, learnt from list responses
     content,  \* message id -> [data, attrs], learnt from Publish / first delivery
     ptime,    \* message id -> publish time string, learnt from the first delivery
+    gone,     \* inv events of calls their client abandoned (their requests may still be processed)
     stats     \* [events |-> validated events, hist |-> histories accepted so far, viol |-> ...]
 
-tvars == <<coreVars, l, skip, hdr, pend, tok, content, ptime, stats>>
+tvars == <<coreVars, l, skip, hdr, pend, tok, content, ptime, gone, stats>>
 
 JudgeLate == "clock" \notin DOMAIN hdr.meta \/ hdr.meta.clock = "paused"
 ProjOf == IF "proj" \in DOMAIN hdr.meta THEN hdr.meta.proj ELSE Empty
@@ -270,6 +271,9 @@ ModCandidates(si, e) ==
         c \in {x \in DOMAIN pend : pend[x].e.op = "ModAck" /\ pend[x].e.sub = S[si].name
                                     /\ pend[x].e.acks = ackSeq /\ pend[x].e.secs >= 0}}
     \cup
+    {[t |-> g.t, secs |-> [i \in 1..Len(ackSeq) |-> g.secs]] :
+        g \in {x \in gone : x.op = "ModAck" /\ x.sub = S[si].name /\ x.acks = ackSeq /\ x.secs >= 0}}
+    \cup
     UNION {{[t |-> pend[c].ctrl[j].t, secs |-> pend[c].ctrl[j].secs] :
               j \in {y \in 1..Len(pend[c].ctrl) : pend[c].ctrl[y].mods = ackSeq
                                                    /\ Len(pend[c].ctrl[y].secs) = Len(ackSeq)}} :
@@ -382,7 +386,7 @@ EvGuards(e) ==
               G("C12", e.opened => e.code # "EOS"),
               G("C12", (e.opened /\ RacedDeletion(W, p.sub)) => ReleasedPromptly(W, p.sub, e.t)) }
       [] e.k = "ret" -> IF e.c \in DOMAIN pend THEN RetGuards(e.c, e) ELSE { G("BIND", FALSE) }
-      [] e.k = "cancel" -> {}
+      [] e.k \in {"cancel", "lret"} -> {}
       [] e.k = "hang" ->
             { G("C07", FALSE) } \cup
             (IF e.c \in DOMAIN pend /\ pend[e.c].e.op \in {"StreamOpen", "Pull"}
@@ -431,7 +435,7 @@ EvApply(e) ==
     /\ pend' =
          CASE e.k = "inv" -> Put(pend, e.c, [e |-> e, from |-> l, ctrl |-> <<>>])
            [] e.k = "ret" -> Without(pend, e.c)
-           [] e.k \in {"cancel", "send"} -> IF e.c \in DOMAIN pend THEN Without(pend, e.c) ELSE pend
+           [] e.k \in {"cancel", "send", "lret"} -> IF e.c \in DOMAIN pend THEN Without(pend, e.c) ELSE pend
            [] e.k = "ssend" ->
                  IF e.c \in DOMAIN pend
                  THEN [pend EXCEPT ![e.c].ctrl = Append(@, [t |-> e.t, acks |-> e.acks, mods |-> e.mods, secs |-> e.secs])]
@@ -453,6 +457,7 @@ EvApply(e) ==
          ELSE IF e.k = "ret" /\ e.code = "OK" /\ pend[e.c].e.op = "Pull" THEN ContentAfter(e.body.msgs)
          ELSE IF e.k = "srecv" THEN ContentAfter(e.msgs)
          ELSE content
+    /\ gone' = IF e.k = "cancel" /\ e.c \in DOMAIN pend THEN gone \cup {pend[e.c].e} ELSE gone
     /\ ptime' =
          IF e.k = "ret" /\ e.code = "OK" /\ pend[e.c].e.op = "Pull" THEN PtimeAfter(e.body.msgs)
          ELSE IF e.k = "srecv" THEN PtimeAfter(e.msgs) ELSE ptime
@@ -464,7 +469,7 @@ TraceInit ==
     /\ CoreInit
     /\ l = 1 /\ skip = FALSE
     /\ hdr = [run |-> "none", meta |-> Empty, cap |-> 16, seed |-> 0]
-    /\ pend = Empty /\ tok = Empty /\ content = Empty /\ ptime = Empty
+    /\ pend = Empty /\ tok = Empty /\ content = Empty /\ ptime = Empty /\ gone = {}
     /\ stats = [ok |-> 0, bad |-> 0, drift |-> 0]
 
 DoReset(e) ==
@@ -473,7 +478,7 @@ DoReset(e) ==
     /\ torder' = <<>> /\ sorder' = <<>> /\ reg' = Empty /\ pubs' = Empty
     /\ skip' = FALSE
     /\ hdr' = e
-    /\ pend' = Empty /\ tok' = Empty /\ content' = Empty /\ ptime' = Empty
+    /\ pend' = Empty /\ tok' = Empty /\ content' = Empty /\ ptime' = Empty /\ gone' = {}
 
 TraceNext ==
     /\ l <= Len(Rec)
@@ -482,7 +487,7 @@ TraceNext ==
        IF e.k = "reset"
        THEN DoReset(e) /\ UNCHANGED stats
        ELSE IF skip
-       THEN UNCHANGED <<coreVars, skip, hdr, pend, tok, content, ptime, stats>>
+       THEN UNCHANGED <<coreVars, skip, hdr, pend, tok, content, ptime, gone, stats>>
        ELSE LET gs == LateGuards(e) \cup EvGuards(e)
                 bad == Fatal(gs)
             IN IF bad = {}
@@ -496,7 +501,7 @@ TraceNext ==
                ELSE /\ PrintT(<<"VIOL", ToJson([run |-> hdr.run, i |-> e.i, k |-> e.k, line |-> l, props |-> bad])>>)
                     /\ skip' = TRUE
                     /\ stats' = [stats EXCEPT !.bad = @ + 1]
-                    /\ UNCHANGED <<coreVars, hdr, pend, tok, content, ptime>>
+                    /\ UNCHANGED <<coreVars, hdr, pend, tok, content, ptime, gone>>
 
 TraceSpec == TraceInit /\ [][TraceNext]_tvars
 
